@@ -200,7 +200,7 @@ Fixpoint closure_fill (svs : nat -> list name) (cur : option lctx) (k : nat) (l 
     [cur] = sexp_context_lambda, [svs m] = sexp_lambda_sv of the lambda with id m. *)
 Fixpoint generate (tail : bool) (svs : nat -> list name) (cur : option lctx) (e : ast) {struct e} : code :=
   match e with
-  | Lit l => [IPush l]
+  | Lit l => [IPush (lit_value l)]                                  (* generate_lit; vm.c:772 SEXP_LIT: the unwrapped value *)
   | Ref x o => gen_ref svs cur x o true
   | SetV x o v =>                                                   (* generate_set *)
       generate false svs cur v ++
@@ -349,6 +349,7 @@ Definition lit_eqb (a b : lit) : bool :=
   | LBool x, LBool y => Bool.eqb x y
   | LNil, LNil | LVoid, LVoid | LUndef, LUndef => true
   | LSym x, LSym y => Nat.eqb x y
+  | LOpaque x, LOpaque y => Nat.eqb x y
   | _, _ => false
   end.
 
